@@ -684,7 +684,7 @@ pub struct PrfOut {
 pub fn run_c15(args: &Args) -> i32 {
     let t0 = std::time::Instant::now();
     let (n, draws) = match args.tier {
-        Tier::Quick => (args.cases.unwrap_or(8000), 200_000),
+        Tier::Quick => (args.cases.unwrap_or(30000), 200_000),
         Tier::Thorough => (args.cases.unwrap_or(300_000), 2_000_000),
     };
     let mut counters: BTreeMap<String, u64> = BTreeMap::new();
